@@ -186,6 +186,23 @@ def run_path(eng, b0, b1, L, want):
             if outcome in ("reject", "assert", "invalid"):
                 P("fetch:placeholder-when-rejected", fi.name() == f"UNK_{lead[0]:02X}" and fi.length() == 1,
                   f"{tag}: got {fi.name()}/{fi.length()}")
+        # decoding is a function of the bytes now in memory, not of what the same Emulator decoded
+        # before: a second Emulator first decodes a known program at the same addresses (history),
+        # then the code is overwritten with this unit's bytes and decoded again without executing
+        # anything in between; the result must be the one a fresh Emulator gives
+        sm2 = SymMem("mem2", eng)
+        for k, x in enumerate((0x08, 0x55, 0x00, 0x00, 0x00, 0x00, 0x00, 0x00, 0x00, 0x00)):   # MV A,55 ; NOP ...
+            sm2.preload(base + k, x)
+        emu2 = EMU.Emulator(EMU.Memory(sm2.read, sm2.write), reset_on_init=False)
+        for at in (base, base + 1, base + 2):
+            hook(lambda: emu2.decode_instruction(at))
+        for i, x in enumerate(data.items):
+            sm2.write(base + i, x)
+        s_h, hi = hook(lambda: emu2.decode_instruction(base))
+        if s_f == "ok":
+            P("fetch:after-history", s_h == "ok" and hi.name() == fi.name() and hi.length() == fi.length(),
+              f"{tag}: an Emulator that decoded 'MV A,55; NOP' at {base:#x} before decodes these bytes as "
+              f"{hi.name() + '/' + str(hi.length()) if s_h == 'ok' else repr(hi)}, a fresh one as {fi.name()}/{fi.length()}")
     # ---- truncated buffers: with fewer bytes than its length the instruction is rejected cleanly,
     #      with at least its length the result is the same (trailing bytes do not matter)
     if L == FULL and want == "C01":
